@@ -37,9 +37,10 @@ MANIFEST = {
             "currently published is on the revocation list or had expired when expired entries were dropped; the CRL built at a "
             "re-issue lists exactly the revocations and every object change forces a re-issue in the same command (invariant over "
             "commands and republish runs); retire revokes everything; after a repository sync nothing but the current objects is on "
-            "the server; the revocation-request decision (class-name test before translation) with the negation of "
-            "revoke_request_effective proved by a decide witness and replayed on the code (F-C03-1).",
+            "the server; the revocation-request decision (translate the child's class name, then look the class up): a positive "
+            "answer for an issued key always removes the certificate (revoke_request_effective); the behaviour before fix "
+            "43d7eca0 (F-C03-1, replayed at the time) is kept as a pinned counter-model.",
     "note": "Kernel-checked theorems are about the model. The unsuspended arm of update_certs (pre-0.16 events) inserts without revoking "
-            "- excluded by hypothesis, shown by a counter-example. Recorded finding F-C03-1.",
+            "- excluded by hypothesis, shown by a counter-example. F-C03-1 fixed in /repo 43d7eca0.",
     "technique": "Lean 4 proof (ghost-state invariant over histories) + correspondence check (system stream) + oracle on decoded CRLs",
 }
